@@ -1301,7 +1301,32 @@ class Interp(object):
                 self.unsupported("del", st)
             return
         if t is ast.With:
-            self.unsupported("with statement", st)
+            mgrs = []
+            for item in st.items:
+                cm = self.eval(item.context_expr, env, ctx)
+                v = self.call(self.getattr(cm, "__enter__", st), [])
+                mgrs.append(cm)
+                if item.optional_vars is not None:
+                    self.assign(item.optional_vars, v, env, ctx)
+            try:
+                self.exec_block(st.body, env, ctx)
+            except AbsRaise as ex:
+                suppressed = False
+                for cm in reversed(mgrs):
+                    exc_obj = AObj(ex.cls_qual or ("builtins." + ex.cls_name), {"args": ex.exc_args}, tag="exc")
+                    r = self.call(self.getattr(cm, "__exit__", st), [ExtRef(ex.cls_name), exc_obj, None])
+                    if not isinstance(r, Abs) and r:
+                        suppressed = True
+                if not suppressed:
+                    raise
+                return
+            except (_Return, _Break, _Continue):
+                for cm in reversed(mgrs):
+                    self.call(self.getattr(cm, "__exit__", st), [None, None, None])
+                raise
+            for cm in reversed(mgrs):
+                self.call(self.getattr(cm, "__exit__", st), [None, None, None])
+            return
         if t is ast.Global or t is ast.Nonlocal:
             return
         self.unsupported("statement %s" % t.__name__, st)
